@@ -27,7 +27,9 @@ def run(prog, chk):
     C15.scope_pairing(prog, chk, "A5.reuse-scope")
     identity_transfer(prog, chk)
     specs(prog, chk)
+    transform_order(prog, chk)
     from props import geomalg
+    geomalg.check_sites(prog, chk, "C18")
     geomalg.check(prog, chk, "C18", floor=4)
 
 
@@ -331,3 +333,61 @@ def specs(prog, chk):
     w = R.field_writers(prog, "in_specs", CTX)
     w = {k for k in w if not k.endswith("::default")}
     chk.ob(w == {SPECS}, "A10.in-specs-writers", "in_specs", "src/transform.rs", "in_specs is written only by SpecsElement", f"in_specs writers: {sorted(w)}")
+
+
+def transform_order(prog, chk):
+    """wherever an element's existing `transform` is combined with the translate(x, y) that places it, the existing
+    transform comes first (both placement paths must compose in the same order)"""
+    import re
+    from sa import hirq
+
+    total = 0
+    for path in ("svgdx::position::Position::set_position_attrs", "svgdx::position::Position::position_via_transform"):
+        b = prog.body(path)
+        chk.touch(b)
+        h = prog.hir[b.id]
+        exist, trans = set(), set()
+
+        def classify(name, init):
+            if init is None:
+                return
+            for m in hirq.exprs(init, "MethodCall"):
+                if m["name"] in ("get_attr", "get", "pop_attr") and m["args"] and hirq.lit_str(m["args"][0]) == "transform":
+                    exist.add(name)
+            for c in list(hirq.exprs(init, "Call")) + list(hirq.exprs(init, "Block")):
+                r = hirq.render_string_expr(c)
+                if r and "translate(" in r:
+                    trans.add(name)
+
+        for st in hirq.walk(h["body"]):
+            if st.get("k") in ("Let", "LetCond") and isinstance(st.get("pat"), dict):
+                for q in hirq.walk(st["pat"]):
+                    if isinstance(q, dict) and q.get("p") == "bind":
+                        classify(q["name"], st.get("init"))
+            if st.get("k") == "Assign" and st["l"].get("k") == "Path" and (st["l"].get("res") or {}).get("local"):
+                pass
+        sites = []
+        for n in hirq.walk(h["body"]):
+            if not isinstance(n, dict):
+                continue
+            seq = None
+            if n.get("k") == "Array":
+                seq = [(it.get("res") or {}).get("local") if it.get("k") == "Path" else None for it in n.get("items", [])]
+            elif n.get("k") in ("Call", "Block"):
+                r = hirq.render_string_expr(n)
+                if r:
+                    seq = re.findall(r"\{([A-Za-z_][A-Za-z0-9_]*)\}", r)
+            if not seq:
+                continue
+            e = [i for i, x in enumerate(seq) if x in exist]
+            t = [i for i, x in enumerate(seq) if x in trans and x not in exist]
+            if e and t:
+                sites.append((n.get("line"), max(e) < min(t), seq))
+        seen = set()
+        for line, ok, seq in sites:
+            if (line, tuple(seq)) in seen:
+                continue
+            seen.add((line, tuple(seq)))
+            total += 1
+            chk.ob(ok, "A16.transform-order", f"{b.short}#{len(seen)}", b.where(line=line), f"{b.short}: the existing transform precedes the placing translate() ({' '.join(seq)})", f"{b.short}: the placing translate() is put BEFORE the element's existing transform ({' '.join(seq)}): a reused group/symbol that carries a transform is placed differently from the other placement path")
+    chk.floor("A16.transform-order", total, 2, "site combining an existing transform with the placing translate()")
